@@ -781,6 +781,7 @@ def vq_div_nocheck(a, b):
 class World(object):
     cur = None
     TIMEOUT_MS = 20000
+    QUICK_MS = 1500
 
     @staticmethod
     def get():
@@ -803,6 +804,8 @@ class World(object):
         self.sign_cache = {}
         self.alg_used = set()
         self.decisions = 0
+        self.positives = []
+        self.nl_hint = False
 
     # ---- declaring inputs
     def sym(self, name):
@@ -857,14 +860,42 @@ class World(object):
         self.solver_s += time.time() - t
         return r
 
+    def _fresh(self, *extra):
+        """non-incremental re-check (z3 then picks nlsat for nonlinear real arithmetic; the incremental core
+        often answers unknown where this is instant) -> (result, model)"""
+        import time
+        t = time.time()
+        self.nq += 1
+        s = z3.Solver()
+        s.set('timeout', self.TIMEOUT_MS)
+        s.add(self.solver.assertions())
+        for e in extra:
+            s.add(e)
+        r = s.check()
+        self.solver_s += time.time() - t
+        return r, (s.model() if r == z3.sat else None), s
+
     def _feasible(self, cond):
-        r = self._check(cond)
+        if self.nl_hint:
+            r = z3.unknown
+        else:
+            self.solver.set('timeout', self.QUICK_MS)
+            try:
+                r = self._check(cond)
+            finally:
+                self.solver.set('timeout', self.TIMEOUT_MS)
         if r == z3.sat:
             self.model = self.solver.model()
             return True
         if r == z3.unsat:
             return False
-        raise Undecided('solver unknown on branch condition (%s)' % self.solver.reason_unknown())
+        r, m, s = self._fresh(cond)
+        if r == z3.sat:
+            self.model = m
+            return True
+        if r == z3.unsat:
+            return False
+        raise Undecided('solver unknown on branch condition (%s)' % s.reason_unknown())
 
     def _model_says(self, cond):
         if self.model is None:
@@ -929,7 +960,16 @@ class World(object):
     def decide_sign(self, dq, op):
         """dq non-constant Q; decide  dq <op> 0"""
         n, dc, d, vn = dq.parts()
+        self.nl_hint = zp.total_degree(n) > 1
+        try:
+            return self._decide_sign(n, d, op)
+        finally:
+            self.nl_hint = False
+
+    def _decide_sign(self, n, d, op):
         if op in ('==', '!='):
+            if self.positives and self._nonzero_by_lemma(n):
+                return op == '!='
             b = self.decide(poly_z3(n) == 0)
             if b:
                 self._record_eq(n)
@@ -943,6 +983,30 @@ class World(object):
             op = {'<': '>', '<=': '>=', '>': '<', '>=': '<='}[op]
         cond = {'<': t < 0, '<=': t <= 0, '>': t > 0, '>=': t >= 0}[op]
         return self.decide(cond)
+
+    def add_positive(self, q):
+        """q > 0 is assumed (lemma proved elsewhere); used to settle zero tests of its multiples"""
+        n, dc, d, _ = lift(q).parts()
+        self.positives.append(n)
+
+    def _nonzero_by_lemma(self, n):
+        """n = q * P for an assumed-positive P and a cofactor q the solver can show non-zero"""
+        n1 = self.subst_eqs(n) if self.eqs else n
+        for P in self.positives:
+            P1 = self.subst_eqs(P) if self.eqs else P
+            if not P1 or len(P1) > len(n1):
+                continue
+            q = zp.divexact(n1, P1)
+            if q is None:
+                continue
+            if zp.is_const(q):
+                return zp.const_value(q) != 0
+            try:
+                if self.must(poly_z3(q) != 0):
+                    return True
+            except Undecided:
+                pass
+        return False
 
     def _record_eq(self, n):
         """remember x_i = (linear binomial) equalities so identity checks can substitute them"""
@@ -962,13 +1026,23 @@ class World(object):
         cond = z3.simplify(cond)
         if z3.is_true(cond):
             return True
-        r = self._check(z3.Not(cond))
+        self.solver.set('timeout', self.QUICK_MS)
+        try:
+            r = self._check(z3.Not(cond))
+        finally:
+            self.solver.set('timeout', self.TIMEOUT_MS)
         if r == z3.unsat:
             return True
         if r == z3.sat:
             self.last_model = self.solver.model()
             return False
-        raise Undecided('solver unknown on obligation (%s)' % self.solver.reason_unknown())
+        r, m, s = self._fresh(z3.Not(cond))
+        if r == z3.unsat:
+            return True
+        if r == z3.sat:
+            self.last_model = m
+            return False
+        raise Undecided('solver unknown on obligation (%s)' % s.reason_unknown())
 
     def subst_eqs(self, n):
         for i, rp, rdc in self.eqs:
